@@ -1795,13 +1795,17 @@ def denom_variants(k, tier):
             c.partial = None
             out.append(c)
         return out
+    # quick tier (budget): three lattice divisors for the 128-bit and scalar-backed types, one for the wider types; one
+    # broadcast construction and the different-divisor-per-lane obligation for the 128-bit types only.  The thorough tier
+    # runs the whole lattice, every broadcast and the per-lane obligation for every type.
+    wide = t.W * t.bits > 128
+    qset = {3} if wide else {3, (1 << t.bits) - 1, 1}
     for v in lat:
-        if tier == 'quick' and v not in quick:
-            continue
-        out.append(mk('d=%d' % v, ['%dull' % v]))
-        if d['vec'] and d.get('broadcast') and (tier != 'quick' or v in (10, (1 << t.bits) - 1, 1)):
+        if tier != 'quick' or v in qset:
+            out.append(mk('d=%d' % v, ['%dull' % v]))
+        if d['vec'] and d.get('broadcast') and (tier != 'quick' or (v == 10 and not wide)):
             out.append(mk('d=%d broadcast from scalar Denominator' % v, ['%dull' % v], via_broadcast=True))
-    if d['vec'] and t.W > 1:
+    if d['vec'] and t.W > 1 and (tier != 'quick' or not wide):
         out.append(mk('different divisor per lane', ['%dull' % v for v in lat]))
     return out
 
